@@ -82,6 +82,7 @@ def run(idx: ProgramIndex, rep: Report, tier: str):
     copyable_caches(idx, rep)
     picklable_closures(idx, rep)
     mirrored_buffers(idx, rep)
+    closures_use_their_argument(idx, rep)
 
 
 # ---- C18-7 ---------------------------------------------------------------------------------------------------------
@@ -868,3 +869,41 @@ def mirrored_buffers(idx: ProgramIndex, rep: Report):
                 "calls %s" % helper if ok else
                 "Prior does not re-synchronise base_dist in %s (%s): after model.double() the _transformed_* buffers are new tensors, base_dist keeps the old ones; a later load_state_dict into the model updates the buffers (and state_dict() shows the loaded values) while log_prob goes on using the constructor values" % (entry, why), {})
     rep.floor("C18-11", "buffer-replacing entry points of Prior", n, 2)
+
+
+# ---- C18-12 --------------------------------------------------------------------------------------------------------
+def closures_use_their_argument(idx: ProgramIndex, rep: Report):
+    """copy.deepcopy (and pickle) treat functions as atoms: a closure stored with a prior is SHARED between a model and its copy.  That is
+    harmless as long as the closure only works on the module it is handed; a closure that reaches for the `self` of the scope it was
+    created in keeps evaluating (and setting) the prior on the ORIGINAL module after a deep copy - the copy's objective then follows the
+    original's parameters."""
+    rep.rule("C18-12", "closures stored with a prior work on the module they are called with: no reference to the `self` of the enclosing scope (they are shared by deep copies)")
+    n = 0
+    for fi in sorted(idx.all_functions(), key=lambda f: (f.module.name, f.qualname)):
+        for c in calls_in(fi.node):
+            if not (isinstance(c.func, ast.Attribute) and c.func.attr == "register_prior"):
+                continue
+            for a in list(c.args) + [k.value for k in c.keywords]:
+                if isinstance(a, ast.Lambda) and a.args.args:
+                    n += 1
+                    captured = sorted({x.id for x in ast.walk(a.body) if isinstance(x, ast.Name) and x.id == "self" and "self" not in [q.arg for q in a.args.args]})
+                    if captured:
+                        rep.add("C18-12", "%s:%s[closure at register_prior]" % (fi.module.name, fi.qualname), "%s:%d" % (fi.module.relpath, a.lineno), False,
+                                "the closure `%s` captures the enclosing self: after copy.deepcopy(model) the copy's prior term is evaluated on (and its gradient flows to) the original module" % " ".join(src(a).split())[:60], {})
+    # the closures that Module.register_prior builds for the string form
+    M = idx.cls("gpytorch.module", "Module")
+    rp = idx.method(M, "register_prior", own=True)
+    me = rp.params[0]
+    inner = [f for f in ast.walk(rp.node) if isinstance(f, (ast.FunctionDef, ast.Lambda)) and f is not rp.node]
+    for f in inner:
+        params = [q.arg for q in f.args.args]
+        if not params:
+            continue
+        n += 1
+        body_nodes = f.body if isinstance(f.body, list) else [f.body]
+        captured = any(isinstance(x, ast.Name) and x.id == me for b in body_nodes for x in ast.walk(b))
+        name = getattr(f, "name", "<lambda>")
+        rep.add("C18-12", "gpytorch.module:Module.register_prior[%s]" % name, "%s:%d" % (rp.module.relpath, f.lineno), not captured,
+                "works on its module argument `%s`" % params[0] if not captured else
+                "the closure %s(%s) built for the string form of register_prior refers to `%s`, the module that registered the prior, instead of its argument: functions are atoms for copy.deepcopy, so a deep copy of the model evaluates (and sets) this prior on the ORIGINAL module - its objective drifts when the original trains on, and the prior's gradient goes to the original" % (name, ", ".join(params), me), {})
+    rep.floor("C18-12", "closures stored with priors", n, 30)
